@@ -25,6 +25,8 @@ def run(ctx: Context) -> None:
     ctx.rule('R12.3', "one depth dimension throughout: skip test, spatial dimension set, floor search, the isel that picks the floor; all variables of a group are indexed by the one floor array; the reduced group overrides the originals; depth dimensions are dropped", floor=9)
     ctx.rule('R12.4', "Convention methods that read the optional time coordinate for another purpose tolerate its absence", floor=3)
     ctx.rule('R12.5', "the normalisation ocean_floor relies on is sound: ordering is read from the copy's current values with the current sign, and a mismatch reverses the whole dataset (shared with C13 R13.3-R13.5)", floor=10)
+    from .common import adopt_foundations as _adopt
+    _adopt(ctx, 'R12.6', ['order'], floor=60)
     ctx.assume("NOT decided: NaN semantics of cumsum/argmax, all-NaN columns, static sea floor across the variables of a group - run-time numerical facts")
     ctx.assume("xarray: Dataset.isel with a DataArray indexer picks per-location layers; merge(compat='override') keeps the receiver's variables")
 
